@@ -49,6 +49,13 @@ def arg(v):
     raise TypeError(v)
 
 
+def _lift_limits():
+    # sanitizer runtimes reserve terabytes of address space: undo the shard's own RLIMIT_AS
+    import resource
+    soft, hard = resource.getrlimit(resource.RLIMIT_AS)
+    resource.setrlimit(resource.RLIMIT_AS, (hard, hard))
+
+
 class CaseResult:
     def __init__(self, recs, exit_rec):
         self.recs = recs          # list of dict records from the child
@@ -146,7 +153,7 @@ class Worker:
         cmd = [exe, "-f", self.confpath, "--timeout", str(timeout), "--errfile", os.path.join(rundir, "stderr.txt")]
         if console:
             cmd.append("--console")
-        self.proc = subprocess.Popen(cmd, stdin=subprocess.PIPE, stdout=subprocess.PIPE, cwd=rundir, env=env)
+        self.proc = subprocess.Popen(cmd, stdin=subprocess.PIPE, stdout=subprocess.PIPE, cwd=rundir, env=env, preexec_fn=_lift_limits)
         line = self.proc.stdout.readline()
         if not line or json.loads(line).get("st") != "ready":
             err = ""
